@@ -481,6 +481,9 @@ def inline_helpers(ctx):
     done = normalise.inline_new_helpers(ctx.facts, keep)
     hoisted = normalise.propagate_option_locals(ctx.facts)
     scalar = normalise.scalarise_new_structs(ctx.facts, set(LOCAL_NAMES.get("structs") or [])) if LOCAL_NAMES.get("structs") else {}
+    folded = normalise.fold_constant_matches(ctx.facts)
+    for k, v in folded.items():
+        done["matches on a constant variant replaced by the selected arm in " + k] = [str(v)]
     untupled = normalise.untuple_bool_matches(ctx.facts)
     for k, v in untupled.items():
         done["tuple matches with a boolean component read as nested ifs in " + k] = [str(v)]
